@@ -185,6 +185,17 @@ class Engine(EngineBase):
                 ops.append([k, h, rng.choice([["init"], ["doc_set", rng.choice("pq"), rng.randrange(9)],
                                               ["remove"], ["read"],
                                               ["sp_set", rng.choice("abc"), rng.choice([0, 1, 2, "x"])]])])
+        if P == "C04" and rng.random() < 0.12:
+            # a nested in-place edit that is refused (the destination exists) through a handle that has
+            # changed its state point successfully before, followed by the next legitimate edit
+            if rng.random() < 0.5:
+                a, b, route, v = {"a": 7, "n": {"x": 1}}, {"a": 7, "b": 5, "n": {"x": 2}}, "n.x", 2
+            else:
+                a, b, route, v = {"a": 8, "l": [1]}, {"a": 8, "b": 5, "l": [1, 2]}, "l.append", 2
+            block = [["open", 0, a, False], ["init", -1], ["sp_set", -1, "b", 5], ["open", 0, b, False],
+                     ["init", -1], ["sp_nested", -2, route, v], ["sp_set", -2, "c", 3]]
+            at = rng.randrange(0, len(ops) + 1)
+            ops[at:at] = block
         sc["ops"] = ops
         return sc
 
